@@ -231,6 +231,7 @@ var GlobalAssumptions = []string{
 	"A3: slices/strings are value sequences (backing array, offset, length); aliasing between distinct live slices is not modelled",
 	"A4: Go semantics as implemented by the gocv lowering (validated by the must-fail selftest corpus, not proved)",
 	"A7: an unsat answer from one SMT solver is accepted in the quick tier",
+	"A9: values of library struct types (zip.File, html.Node, ...) are opaque; library calls on them do not change the fields contracts read",
 }
 
 type KnownFinding struct {
